@@ -165,6 +165,10 @@ func (eval Evaluator) PartialTracesSum(ctIn *Ciphertext, offset, n int, opOut *C
 		return fmt.Errorf("partialtrace: invalid parameter (n <= 0 or batchSize = 0)")
 	}
 
+	if ctIn.Degree() != 1 {
+		return fmt.Errorf("partialtrace: ctIn.Degree() != 1")
+	}
+
 	params := eval.GetRLWEParameters()
 
 	levelQ := ctIn.Level()
@@ -178,7 +182,7 @@ func (eval Evaluator) PartialTracesSum(ctIn *Ciphertext, offset, n int, opOut *C
 
 	ringQ := ringQP.RingQ
 
-	opOut.Resize(opOut.Degree(), levelQ)
+	opOut.Resize(1, levelQ)
 	*opOut.MetaData = *ctIn.MetaData
 
 	ctInNTT, err := NewCiphertextAtLevelFromPoly(levelQ, eval.BuffCt.Value[:2])
@@ -333,13 +337,17 @@ func (eval Evaluator) InnerFunction(ctIn *Ciphertext, batchSize, n int, f func(a
 		return fmt.Errorf("innerfunction: invalid parameter (n <= 0)")
 	}
 
+	if ctIn.Degree() != 1 {
+		return fmt.Errorf("innerfunction: ctIn.Degree() != 1")
+	}
+
 	params := eval.GetRLWEParameters()
 
 	levelQ := utils.Min(ctIn.Level(), opOut.Level())
 
 	ringQ := params.RingQ().AtLevel(levelQ)
 
-	opOut.Resize(opOut.Degree(), levelQ)
+	opOut.Resize(1, levelQ)
 	*opOut.MetaData = *ctIn.MetaData
 
 	P0 := params.RingQ().NewPoly()
